@@ -1,5 +1,5 @@
 """C09 — the DMRG solver: protocol clauses."""
-from ..rules import canon, conv, dispatch
+from ..rules import drivers, canon, conv, dispatch
 
 META = {
     "title": "The DMRG solver finds the ground state of the final Hamiltonian",
@@ -32,3 +32,6 @@ def check(ctx):
     dispatch.solver(ctx)
     ctx.floor("CONV-gate", 4)
     ctx.floor("CENTER", 3)
+    drivers.progress_dispatch(ctx)
+    drivers.sweep_boundaries(ctx)
+    drivers.dmrg_restart(ctx)
